@@ -624,7 +624,7 @@ class Engine:
         """Sweep-mode state merging.  Exact part: ip, call context, rsp, DF/MXCSR, callee-saved registers.  General part:
         caller-saved registers and stack cells, where an unknown ('?') seen earlier covers any later value (a state whose
         values are unknown explores a superset of the continuations of a state where they are known)."""
-        key = (st.ip, st.ctx, self._abs(st.r[4]), st.df, st.mxcsr_written)
+        key = (st.ip, st.ctx, self._abs(st.r[4]), st.df, st.mxcsr_written) + (self.key_extra(st) if getattr(self, 'key_extra', None) else ())
         gen = {('r', i): self._abs(st.r[i]) for i in range(16) if i != 4}
         for rg in st.regions:
             if isinstance(rg, CellRegion):
